@@ -559,6 +559,15 @@ func c13RunRound(c c13Round) (msg string) {
 		return m
 	}
 	if c.Restart {
+		// per item the outcome is as if the operations ran one at a time: whatever order the concurrent writers of
+		// one key are taken to have run in, the value the key ends with is the last one of that order, and it is
+		// that value a restart must bring back (all clients have finished: nothing is in flight)
+		var kvLive [4]string
+		var kvLiveOK [4]bool
+		for k := range kvLive {
+			b, ok := e.KVGet(fmt.Sprintf("sk%d", k))
+			kvLive[k], kvLiveOK[k] = string(b), ok
+		}
 		if err := e.Close(); err != nil {
 			closed.Store(true)
 			return "Close: " + err.Error()
@@ -571,6 +580,12 @@ func c13RunRound(c c13Round) (msg string) {
 			return "Open after the round: " + err.Error()
 		}
 		defer e2.Close()
+		for k := range kvLive {
+			b, ok := e2.KVGet(fmt.Sprintf("sk%d", k))
+			if ok != kvLiveOK[k] || string(b) != kvLive[k] {
+				return fmt.Sprintf("after Close/Open: the shared key sk%d reads (%q, present=%v); before Close, with every client finished, it read (%q, present=%v): concurrent KVSet calls on one key were journaled in one order and applied in the other", k, b, ok, kvLive[k], kvLiveOK[k])
+			}
+		}
 		if m := verify(e2, "after Close/Open"); m != "" {
 			// context for the report: the log records that mention the item
 			if i := strings.Index(m, ": c"); i >= 0 {
